@@ -45,6 +45,8 @@ class Controller:
         self.points: list[dict[str, Any]] = []
         self.trace: list[str] = []
         self.overlap = 0  # number of polls at which >= 2 workers were busy
+        self.sent: dict[int, int] = {}  # 'frame is in the socket' notifications per worker
+        self.undelivered: dict[int, int] = {}  # frames sent by a worker but not yet read by the coordinator
 
     # ------------------------------------------------------------------ choices
 
@@ -82,9 +84,13 @@ class Controller:
                     msg = json.loads(line)
                     idx = int(msg["w"])
                     self.socks[idx] = s
-                    self.bufs[idx] = rest
+                    self.bufs[idx] = b""
                     del self.anon[j]
-                    self.at_gate[idx] = msg
+                    self._on_msg(idx, msg)
+                    while b"\n" in rest:
+                        line, rest = rest.split(b"\n", 1)
+                        self._on_msg(idx, json.loads(line))
+                    self.bufs[idx] = rest
                 elif not data:
                     del self.anon[j]
                 else:
@@ -99,9 +105,15 @@ class Controller:
             buf = self.bufs.get(idx, b"") + data
             while b"\n" in buf:
                 line, buf = buf.split(b"\n", 1)
-                self.at_gate[idx] = json.loads(line)
+                self._on_msg(idx, json.loads(line))
             self.bufs[idx] = buf
         return True
+
+    def _on_msg(self, idx: int, msg: dict) -> None:
+        if msg["gate"] == "sent":
+            self.sent[idx] = self.sent.get(idx, 0) + 1
+        else:
+            self.at_gate[idx] = msg
 
     def quiesce(self) -> None:
         """Block until every busy worker is parked at a gate."""
@@ -121,41 +133,89 @@ class Controller:
     # ------------------------------------------------------------------ patched ready_to_read
 
     def ready_to_read(self, conns: list, timeout: float | None = None) -> list[int]:
+        """The coordinator polls.  Options at a poll (one choice point each time round the loop):
+          adv(w)      release worker w parked at a COMPUTE gate (it runs to its next gate)
+          send(w)     release worker w parked at a SEND gate: the frame goes into the socket but is NOT yet
+                      handed to the coordinator (a fast worker / slow coordinator), w runs on to its next gate
+          deliver(w)  return [w]: the coordinator reads one frame of w that is already in the socket
+          together    return every worker that has an undelivered frame (one select() returning several)
+          burst(w)    w runs ahead through all its remaining gates of this request without any delivery
+        The default (choice 0) is: lowest worker first; deliver before anything else."""
         unread = [i for i, c in enumerate(conns) if c.buffer]
         if unread:
             return unread
         while True:
             self.quiesce()
-            enabled = sorted(i for i in self.at_gate if i in self.busy or self.at_gate[i]["gate"] == "dead")
-            if len(self.busy) >= 2:
+            parked = sorted(i for i in self.at_gate if i in self.busy or self.at_gate[i]["gate"] == "dead")
+            pending = sorted(i for i, n in self.undelivered.items() if n > 0)
+            if len(self.busy) + len([i for i in pending if i not in self.busy]) >= 2:
                 self.overlap += 1
-            if not enabled:
-                raise Deadlock(f"coordinator waits, no worker enabled; busy={sorted(self.busy)}")
-            sendg = [i for i in enabled if self.at_gate[i]["gate"].startswith("send")]
-            options: list[tuple[str, tuple[int, ...]]] = [("adv", (i,)) for i in enabled]
-            if len(sendg) >= 2:
-                options.append(("deliver-together", tuple(sendg)))
-            desc = [f"w{o[1][0]}@{self.at_gate[o[1][0]]['gate']}" if o[0] == "adv" else "together:" +
-                    ",".join(f"w{i}" for i in o[1]) for o in options]
+            if not parked and not pending:
+                raise Deadlock(f"coordinator waits, nothing enabled; busy={sorted(self.busy)}")
+            options: list[tuple[str, tuple[int, ...]]] = []
+            workers = sorted(set(parked) | set(pending))
+            for i in workers:  # per worker: deliver first, then its gate step
+                if i in pending:
+                    options.append(("deliver", (i,)))
+                if i in parked:
+                    g = self.at_gate[i]["gate"]
+                    options.append(("dead" if g == "dead" else ("send" if g.startswith("send") else "adv"), (i,)))
+            if len(pending) >= 2:
+                options.append(("together", tuple(pending)))
+            for i in parked:
+                if self.at_gate[i]["gate"] not in ("dead", "send-impl"):
+                    options.append(("burst", (i,)))
+            desc = []
+            for kind, who in options:
+                if kind in ("adv", "send", "dead"):
+                    desc.append(f"{kind}:w{who[0]}@{self.at_gate[who[0]]['gate']}")
+                else:
+                    desc.append(f"{kind}:" + ",".join(f"w{i}" for i in who))
             k = self.choose(len(options), "step", desc)
             kind, who = options[k]
-            delivered = []
-            for i in who:
-                g = self.release(i)
-                if g["gate"] == "dead":
-                    delivered.append(i)
-                    continue
-                if g["gate"].startswith("send"):
-                    if g["gate"] == "send-impl" or (g.get("info") or {}).get("blocker"):
-                        self.busy.discard(i)
-                    delivered.append(i)
-            if delivered:
-                for i in delivered:
+            if kind in ("deliver", "together"):
+                out = []
+                for i in who:
                     r, _, _ = select.select([conns[i].connection], [], [], 300.0)
                     if not r:
-                        raise Deadlock(f"worker {i} released at a send gate but nothing arrived")
-                return delivered
-            # a compute phase was released: loop; quiesce() waits until that worker parks again
+                        raise Deadlock(f"worker {i} has an undelivered frame but nothing is readable")
+                    self.undelivered[i] = 0  # the coordinator drains the socket into its buffer in one read
+                    out.append(i)
+                return out
+            i = who[0]
+            if kind == "dead":
+                self.release(i)
+                return [i]
+            if kind in ("adv", "send"):
+                self._step(i)
+                continue
+            if kind == "burst":
+                while True:
+                    last = self._step(i)
+                    if last == "send-impl" or i not in self.busy:
+                        break
+                    self.quiesce()
+                    if i not in self.at_gate or self.at_gate[i]["gate"] == "dead":
+                        break
+                continue
+
+    def _step(self, i: int) -> str:
+        """Release worker i from its gate; book-keep sent frames; returns the gate kind."""
+        want = self.sent.get(i, 0) + 1
+        g = self.release(i)
+        kind = g["gate"]
+        if kind.startswith("send"):
+            # wait until the worker reports that the frame really is in the socket
+            waited = 0.0
+            while self.sent.get(i, 0) < want:
+                if not self._pump(5.0):
+                    waited += 5.0
+                    if waited >= 300.0:
+                        raise Deadlock(f"worker {i} released at {kind} never reported the frame as sent")
+            self.undelivered[i] = self.undelivered.get(i, 0) + 1
+            if kind == "send-impl" or (g.get("info") or {}).get("blocker"):
+                self.busy.discard(i)
+        return kind
 
     def close(self) -> None:
         for s in list(self.socks.values()) + [s for s, _ in self.anon]:
